@@ -248,10 +248,11 @@ Proof.
 Qed.
 
 Definition st_frac := mk_state (PAbs bar) LFraction (MMass g) true 77 (@ads_const RNum (Some 101325) (Some 28) None None None None) (mat_full 2 60) [1] [3] [false] None None.
-(* in fraction mode any material unit string is accepted for the same basis (the constructor does not check it either) *)
-Remark fraction_material_unit_unchecked :
-  exists s', convert_material RNum st_frac (Some "mass"%string) (Some "bogus"%string) false = SOk s' /\ material_unit s' = Some "bogus"%string.
-Proof. eexists; split; [unfold st_frac; eval_model; reflexivity|reflexivity]. Qed.
+(* in fraction mode a material unit string that names no unit of the basis is refused and nothing changes
+   (repaired by "fix: convert_material checks the unit it stores on a fraction/percent isotherm"; before, the string was stored) *)
+Remark fraction_material_unit_checked :
+  convert_material RNum st_frac (Some "mass"%string) (Some "bogus"%string) false = SErr ParameterError st_frac.
+Proof. unfold st_frac; eval_model; reflexivity. Qed.
 
 (* non-vacuity *)
 Example history_example :
